@@ -71,7 +71,21 @@ QA2 = ((("b", "a"), ("b", "c"), ("d", "c")), ("d", "a"),
 # the closed network obtained from A by appending its output as a term
 QA3 = ((("a", "b"), ("b", "c"), ("c", "d"), ("a", "d")), (),
        {"a": 2, "b": 3, "c": 4, "d": 5})
-QS = {"A": QA, "B": QB, "C": QC, "A2": QA2, "A3": QA3}
+
+
+def _ring(n, out):
+    sym = "abcdefghijklmnopqrstuvwxyz"
+    inputs = tuple((sym[i], sym[(i + 1) % n]) + (("X",) if i in out else ())
+                   for i in range(n))
+    sd = {ix: 2 for t in inputs for ix in t}
+    return inputs, (("X",) if out else ()), sd
+
+
+# big enough for the 'auto' presets to take their hyper-optimizer branch
+QR14 = _ring(14, ())
+QR15 = _ring(15, (0, 7))
+QS = {"A": QA, "B": QB, "C": QC, "A2": QA2, "A3": QA3, "R14": QR14,
+      "R15": QR15}
 
 HK = dict(methods=["greedy"], max_repeats=1, optlib="random", parallel=False)
 
@@ -130,6 +144,9 @@ def harnesses(tier):
         ("rh-mem-2x1-same-opcode", "rh-mem", [["A"], ["A2"]], b2),
         ("auto-cache-2x1-opcode", "auto-cache", [["A"], ["B"]], b2),
         ("auto-nocache-2x1", "auto-nocache", [["A"], ["B"]], b2),
+        # the module-level preset objects behind optimize='auto' / 'auto-hq'
+        ("preset-auto-2x1", "preset-auto", [["R14"], ["R15"]], 1),
+        ("preset-auto-hq-2x1", "preset-auto-hq", [["R15"], ["R14"]], 1),
         ("auto-nocache-2x2", "auto-nocache", [["A", "C"], ["C", "B"]], 1),
     ]
 
@@ -159,6 +176,8 @@ WHITELIST = {
     "rrg-mem": _REUSABLE,
     "rh-disk": _REUSABLE + _DISK,
     "auto-cache": _REUSABLE + _PRESETS,
+    "preset-auto": _REUSABLE + _PRESETS,
+    "preset-auto-hq": _REUSABLE + _PRESETS,
     "auto-nocache": _PRESETS + [
         ("cotengra/hyperoptimizers/hyper.py", "search"),
         ("cotengra/hyperoptimizers/hyper.py", "tree"),
@@ -172,11 +191,33 @@ OPCODE_FUNCS = ("_maybe_run_optimizer", "_run_optimizer", "search",
                 "last_opt", "_get_optimizer_hyper_threadsafe", "hash_query")
 
 
+class PresetFacade:
+    """search(...) through the public interface with a string preset"""
+
+    def __init__(self, name):
+        self.name = name
+
+    def search(self, inputs, output, sd):
+        import cotengra as ctg
+
+        return ctg.array_contract_tree(inputs, output, sd,
+                                       optimize=self.name,
+                                       canonicalize=False)
+
+
 def make_optimizer(kind, root):
     import cotengra as ctg
 
     if kind == "rh-mem":
         return ctg.ReusableHyperOptimizer(**HK)
+    if kind in ("preset-auto", "preset-auto-hq"):
+        # the shared module-level preset object; forget what earlier
+        # executions left behind so that every schedule starts equal
+        name = kind.split("-", 1)[1]
+        for pn in ("auto", "auto-hq"):
+            ctg.interface.preset_to_optimizer(pn) \
+                ._hyperoptimizers_by_thread.clear()
+        return PresetFacade(name)
     if kind == "rh-mem-improved":
         return ctg.ReusableHyperOptimizer(overwrite="improved", **HK)
     if kind == "rh-mem-hash-b":
